@@ -158,6 +158,15 @@ CLAIMED = {
          "interpreter itself and therefore hold for any registered definition. The accepted language per definition is NOT decided.",
     technique="namespace/key agreement between writer and reader (AST) + documented-key usage analysis + shared CFG dominance rules of the interpreter",
     ref="4/C20"),
+ "C12": dict(
+    text="O1 every insertion into `filters` and every write of an entry's name in the seven editing operations is dominated by the existence test "
+         "raising FilterAlreadyExists; O2 update/replace make no list-level mutation, do not write `enabled`, and re-wrap a disabled entry; O3 "
+         "movefilter removes the matched entry and re-inserts the same object at index-1 (up edge) / index+1 (otherwise) with early exits at 0 and "
+         "len-1, the index variable counting iterations; O4 every mutation is dominated by the name-match edge and unknown names end in a falsy "
+         "return; O5 enabled=False only together with wrapping and True only with unwrapping, both under the shared recogniser's state guard "
+         "(sibling cross-check), getters derive from the same flag/recogniser. Equivalence with a list model over all histories is NOT decided.",
+    technique="CFG dominance with edge facts on the seven operations + AST affine check of the move indices + sibling cross-check enable/disable",
+    ref="4/C12"),
 }
 NA = {}
 
